@@ -91,7 +91,7 @@ def word(prefix='w'):
     return '%sx%dz' % (prefix, _w[0])
 
 
-def gen_doc(rng, leaves=None, depth=2, labels=True, bad_titles=False, leaf_titles=False):
+def gen_doc(rng, leaves=None, depth=2, labels=True, bad_titles=False, leaf_titles=False, same_titles=False):
     """Random sectioned document; returns (source, list of marker words in order, list of labels, refs)."""
     words, labs, refs = [], [], []
     names = ['section', 'subsection', 'subsubsection']
@@ -109,6 +109,8 @@ def gen_doc(rng, leaves=None, depth=2, labels=True, bad_titles=False, leaf_title
         out = ''
         for _ in range(rng.randrange(1, 3)):
             t = word('t')
+            if same_titles and rng.random() < 0.5:
+                t = 'Same Name'          # several units with one title: their names must still differ
             star = '*' if rng.random() < 0.15 else ''
             # titles may carry characters that are forbidden in file names
             extra = rng.choice(['', '', ': x', ' a/b', ' q?']) if bad_titles else ''
